@@ -216,7 +216,7 @@ def run(tier, replay=None):
             run_.sample({"stream": stream, "schedule": steps, "realised": r["realised"], "blocked_steps": r["blocked"],
                          "frames": [f[:80] for f in r["frames"]]})
     # ungated stress
-    sruns = 2 if tier == "quick" else 12
+    sruns = 5 if tier == "quick" else 12
     ops = 40 if tier == "quick" else 60
     sin = {"seed": common.seed(), "runs": sruns, "ops": ops}
     out = common.run_harness_json(["c09stress"], sin, timeout=900, crash_ok=True)
